@@ -44,6 +44,8 @@ def main():
         d = os.path.join(base, sid)
         meta = json.load(open(os.path.join(d, 'meta.json')))
         pid = meta['property']
+        if meta.get('obsolete'):
+            print('{:28s} {} OBSOLETE {}'.format(sid, pid, meta['obsolete'][:120])); continue
         wt = '/var/tmp/seedwt_' + sid
         res = {'property': pid, 'tier': tier}
         try:
